@@ -515,3 +515,95 @@ func ruleLexerBack(c *Ctx) *RuleResult {
 	}
 	return r
 }
+
+// B-STEP: a loop whose index is advanced by a non-constant step and used to
+// index a slice must keep the increment from overflowing: the only edge back
+// into the loop is taken when the remaining distance (bound - i) still exceeds
+// the step. (i += step with step near MaxInt64 wraps to a negative index that
+// passes a one-sided `i < stop` test.)
+func init() { register("B-STEP", ruleStepOverflow) }
+
+func ruleStepOverflow(c *Ctx) *RuleResult {
+	r := &RuleResult{Doc: "loops that advance a slice index by a variable step guard the increment against overflow: the latch is reached only when bound - i compared with the step shows that i + step stays on the same side of the bound", Floor: 1}
+	for _, fn := range allFuncs(c.SLib) {
+		if !c.scopeOf(fn)["eval"] {
+			continue
+		}
+		n := 0
+		for _, h := range fn.Blocks {
+			for _, in := range h.Instrs {
+				ph, ok := in.(*ssa.Phi)
+				if !ok || !types.Identical(ph.Type(), types.Typ[types.Int]) {
+					continue
+				}
+				// i = phi(init, i + step) with a non-constant step
+				var add *ssa.BinOp
+				for _, e := range ph.Edges {
+					if bo, ok := e.(*ssa.BinOp); ok && bo.Op == token.ADD && bo.X == ph {
+						if _, isConst := bo.Y.(*ssa.Const); !isConst {
+							add = bo
+						}
+					}
+				}
+				if add == nil {
+					continue
+				}
+				// used as a slice index inside the loop?
+				used := false
+				for _, ref := range *ph.Referrers() {
+					if ia, ok := ref.(*ssa.IndexAddr); ok && ia.Index == ph {
+						used = true
+					}
+				}
+				if !used {
+					continue
+				}
+				// the loop bound: header test i < bound / i > bound
+				ifi := blockIf(h)
+				var bound ssa.Value
+				if ifi != nil {
+					if bo, ok := ifi.Cond.(*ssa.BinOp); ok && bo.X == ph && (bo.Op == token.LSS || bo.Op == token.GTR || bo.Op == token.LEQ || bo.Op == token.GEQ) {
+						bound = bo.Y
+					}
+				}
+				n++
+				r.Instances++
+				key := fmt.Sprintf("%s|%s+=%s#%d", fname(fn), "i", c.symStr(add.Y, 0), n)
+				pos := c.pos(add.Pos())
+				if bound == nil {
+					r.viol(key, pos, fname(fn), "a slice index is advanced by a variable step in a loop without a recognisable bound test")
+					continue
+				}
+				// every path from the header to the increment passes a test of (bound - i) against the step
+				guarded := false
+				for d := add.Block(); d != nil && d != h; d = d.Idom() {
+					id := d.Idom()
+					if id == nil {
+						break
+					}
+					gi := blockIf(id)
+					if gi == nil {
+						continue
+					}
+					bo, ok := gi.Cond.(*ssa.BinOp)
+					if !ok {
+						continue
+					}
+					isDist := func(v ssa.Value) bool {
+						s, ok := v.(*ssa.BinOp)
+						return ok && s.Op == token.SUB && s.X == bound && s.Y == ph
+					}
+					if (isDist(bo.X) && bo.Y == add.Y) || (isDist(bo.Y) && bo.X == add.Y) {
+						guarded = true
+					}
+				}
+				if guarded {
+					r.ok(key, pos, fname(fn), "the increment is reached only after comparing the remaining distance bound - i with the step: i + step cannot pass the bound or overflow")
+				} else {
+					r.viol(key, pos, fname(fn), "index i is advanced by the variable step "+c.symStr(add.Y, 0)+" under the one-sided loop test only: for a step near MaxInt64 (MinInt64) i += step overflows to the other side of 0 and the next slice[i] panics")
+				}
+			}
+		}
+	}
+	return r
+}
